@@ -94,6 +94,10 @@ func runC03(s *scenario, seed uint64) {
 	if s.thorough {
 		runs = 150
 	}
+	if s.only < 0 {
+		c03Lag(s, "fill")
+		c03Lag(s, "oversize")
+	}
 	for i := 0; i < runs; i++ {
 		derived := master.U64()
 		if s.only >= 0 && i != s.only {
